@@ -1,6 +1,7 @@
 package main
 
 import (
+	"fmt"
 	"go/ast"
 	"go/constant"
 	"go/token"
@@ -993,7 +994,6 @@ func init() {
 			if fi == nil {
 				return
 			}
-			e := newEmitter(c, fi)
 			var loop *ast.ForStmt
 			fi.inspect(fi.Decl.Body, func(nd ast.Node) bool {
 				f, ok := nd.(*ast.ForStmt)
@@ -1018,19 +1018,78 @@ func init() {
 					return true
 				}
 				if ix, ok := ast.Unparen(as.Lhs[0]).(*ast.IndexExpr); ok && types.TypeString(fi.Info.TypeOf(ix.X), nil) == "map[string]struct{}" {
-					var cs []string
-					for _, g := range fi.GuardsWithin(as, loop.Body) {
-						if _, isIf := g.At.(*ast.IfStmt); isIf && fi.within(as, g.At.(*ast.IfStmt).Body) {
-							s := e.sym(g.Expr)
-							if g.Neg {
-								s = "!" + s
+					// decision table over (named, same package path, same variable name)
+					atom := func(e ast.Expr) (string, bool) {
+						be, ok := ast.Unparen(e).(*ast.BinaryExpr)
+						if !ok || (be.Op != token.EQL && be.Op != token.NEQ) {
+							return "", false
+						}
+						fx, fy := fi.selField(be.X), fi.selField(be.Y)
+						name := ""
+						switch {
+						case fx != nil && fy != nil && (fx.Name() == "PkgPath" && fy.Name() == "ImportPath" || fx.Name() == "ImportPath" && fy.Name() == "PkgPath"):
+							name = "samePath"
+						case fx != nil && fy != nil && fx.Name() == "VarName" && fy.Name() == "VarName":
+							name = "sameName"
+						case fx != nil && fx.Name() == "VarName" && types.ExprString(be.Y) == `""`:
+							name = "unnamed"
+						default:
+							return "", false
+						}
+						return name, be.Op == token.EQL
+					}
+					var eval func(e ast.Expr, env map[string]bool) (bool, bool)
+					eval = func(e ast.Expr, env map[string]bool) (bool, bool) {
+						e = ast.Unparen(e)
+						if u, ok := e.(*ast.UnaryExpr); ok && u.Op == token.NOT {
+							v, ok := eval(u.X, env)
+							return !v, ok
+						}
+						if be, ok := e.(*ast.BinaryExpr); ok && (be.Op == token.LAND || be.Op == token.LOR) {
+							x, ok1 := eval(be.X, env)
+							y, ok2 := eval(be.Y, env)
+							if !ok1 || !ok2 {
+								return false, false
 							}
-							cs = append(cs, s)
+							if be.Op == token.LAND {
+								return x && y, true
+							}
+							return x || y, true
+						}
+						if n, eq := atom(e); n != "" {
+							return env[n] == eq, true
+						}
+						return false, false
+					}
+					okC := true
+					got := ""
+					for _, named := range []bool{false, true} {
+						for _, sp := range []bool{false, true} {
+							for _, sn := range []bool{false, true} {
+								env := map[string]bool{"unnamed": !named, "samePath": sp, "sameName": sn}
+								rec := true
+								for _, g := range fi.GuardsWithin(as, loop.Body) {
+									if _, isIf := g.At.(*ast.IfStmt); !isIf || !fi.within(as, g.At.(*ast.IfStmt).Body) {
+										continue
+									}
+									v, ok := eval(g.Expr, env)
+									if !ok {
+										okC = false
+										got += " undecided:" + exprShort(g.Expr)
+										continue
+									}
+									if g.Neg {
+										v = !v
+									}
+									rec = rec && v
+								}
+								if rec != (named && !(sp && sn)) {
+									okC = false
+								}
+								got += fmt.Sprintf(" (named=%v,samePath=%v,sameName=%v)→%v", named, sp, sn, rec)
+							}
 						}
 					}
-					sort.Strings(cs)
-					got := strings.Join(cs, " ∧ ")
-					okC := regexpMatch(`^!\(\((.+)\.PkgPath==\$1\.ImportPath\)&&\((.+)\.VarName==\$1\.VarName\)\) ∧ \((.+)\.VarName!=""\)$`, got)
 					recorded = true
 					r.Check(okC, "imports-walk/recorded-iff-named-and-not-self", as.Pos(), "a visited set is listed iff it is named and is not the shown set itself (same package path AND same variable name) — got: %s", got)
 				}
